@@ -313,7 +313,7 @@ func (r *rateLimiter[R]) acquirePermitsWithMaxWait(ctx context.Context, exec fai
 		case <-timer.C:
 		case <-exec.Canceled():
 			timer.Stop()
-			return exec.LastError()
+			return exec.Context().Err()
 		}
 	}
 	return nil
